@@ -406,7 +406,7 @@ def bbox_fn(prog: Program, rep: Report, C):
     fa = fa_of(prog, fi)
     cfg = fa.cfg
     rep.analysed_add("functions", f"{fi.module.relpath}:{fi.qualname}")
-    rets = [(n, nd.ast.value) for n, nd in cfg.nodes.items() if nd.kind == "stmt" and isinstance(nd.ast, ast.Return)]
+    rets = [(n, fa.ret_ast(n)[0]) for n, nd in cfg.nodes.items() if nd.kind == "stmt" and isinstance(nd.ast, ast.Return)]
     if len(rets) != 1 or not (isinstance(rets[0][1], ast.Tuple) and len(rets[0][1].elts) == 2):
         rep.unk("G6.bbox", fi, "return", "get_random_bbox does not return one pair", clause="C10.5")
         return
